@@ -5,8 +5,14 @@
  * they gave; that log is the oracle of the model (Model/Udp.v).
  *
  * Case (one line):
- *   fam conn mm ; allocs ; splan ; rplan ; ops ; behs ; rbehs
- * fam 4|6, conn 0|1 (uv_udp_connect to the plain socket), mm 0|1 (UV_UDP_RECVMMSG);
+ *   fam conn mm [pat] ; allocs ; splan ; rplan ; ops ; behs ; rbehs
+ * fam 4|6, conn 0|1 (uv_udp_connect to plain socket 1), mm 0|1 (UV_UDP_RECVMMSG), pat 0|1|2:
+ * every uv_udp_send_t is pre-filled with 0x00 / 0x5A / 0xFF and request structures are
+ * reused (last finished first) without being cleared;
+ * two plain sockets: destination 1 (R) and destination 2 (X); addr in s/t/u: 0 = NULL;
+ * c<dst> uv_udp_connect(dst), d uv_udp_connect(NULL);
+ * system-call tokens carry the msg_name libuv passed: <seq>@<0 NULL|1|2|9 other>;
+ * A<seq>,<n>,<addr> (what the application asked for) is an annotation for the monitor;
  * allocs: sizes alloc_cb hands out; splan/rplan: what the k-th wrapped send/receive
  * call on the handle's descriptor does: p | t<j> | e<errno>;
  * ops: s<len>,<addr> t<len>,<addr> u<flags>,<len>,... g p q x R i<len>,...
@@ -19,6 +25,7 @@
 #include <stdarg.h>
 #include <errno.h>
 #include <poll.h>
+#include <signal.h>
 #include <unistd.h>
 #include <sys/socket.h>
 #include <netinet/in.h>
@@ -38,8 +45,8 @@ int __real_recvmmsg(int, struct mmsghdr*, unsigned int, int, struct timespec*);
 static uv_loop_t loop;
 static uv_udp_t H;
 static uv_prepare_t keep;
-static int R = -1, hfd = -1, fam, conn, mm;
-static struct sockaddr_storage Raddr, Haddr;
+static int R = -1, X2 = -1, hfd = -1, fam, conn, mm, pat, cur_peer;
+static struct sockaddr_storage Raddr, Xaddr, Haddr;
 static socklen_t alen;
 static int closing_called, quiet;
 
@@ -59,8 +66,21 @@ static void out_room(size_t n) {
 
 /* datagrams submitted on the handle */
 static char* dg_ptr[MAXD]; static int dg_len[MAXD]; static int next_seq, next_id;
-static int handed_log[MAXD], nhanded;
-static void* reqs[MAXD]; static int nreqs;
+static int handed_log[MAXD], handed_to[MAXD], nhanded;
+static void* reqs[MAXD]; static int nreqs;        /* every request structure of the case */
+static void* freereq[MAXD]; static int nfree;     /* finished ones, reused last-in first-out */
+static int matched[MAXD];
+
+static uv_udp_send_t* get_req(void) {
+  static const int fill[3] = { 0x00, 0x5A, 0xFF };
+  uv_udp_send_t* r;
+  if (nfree > 0) return freereq[--nfree];         /* as it was left: not cleared */
+  r = malloc(sizeof *r);
+  memset(r, fill[pat % 3], sizeof *r);
+  if (nreqs < MAXD) reqs[nreqs++] = r;
+  return r;
+}
+static void put_req(uv_udp_send_t* r) { if (nfree < MAXD) freereq[nfree++] = r; }
 
 static char* mk_payload(int seq, int len) {
   char* p = malloc(len > 0 ? len : 1); int i;
@@ -104,22 +124,50 @@ static unsigned char inj_byte(int j, int i) {
   default: return (unsigned char) (j * 17 + i * 3); }
 }
 
-/* what the plain socket received */
-static int rcv_seq[MAXD], nrcv;
-static void drain(void) {
+/* what the plain sockets received */
+static int rcv_seq[2][MAXD], nrcv[2];
+static void drain1(int w, int fd) {
   static char buf[BIG];
   for (;;) {
-    ssize_t n = recv(R, buf, sizeof buf, MSG_DONTWAIT); int s = -1;
+    ssize_t n = recv(fd, buf, sizeof buf, MSG_DONTWAIT); int s = -1, k;
     if (n < 0) break;
     if (n >= 6 && (unsigned char) buf[0] == 0xC1) {
       s = ((unsigned char) buf[2] << 24) | ((unsigned char) buf[3] << 16) |
           ((unsigned char) buf[4] << 8) | (unsigned char) buf[5];
-    } else if (nrcv < nhanded) {
-      s = handed_log[nrcv];        /* too short to carry its number: by position */
+    } else {
+      /* too short to carry its number: the earliest handed datagram with this content */
+      int pass;
+      for (pass = 0; pass < 2 && s < 0; pass++)      /* first among those addressed to this socket */
+        for (k = 0; k < nhanded; k++) {
+          int h = handed_log[k];
+          if (!matched[k] && h >= 0 && (pass || handed_to[k] == w + 1) && dg_len[h] == n &&
+              memcmp(buf, dg_ptr[h], n) == 0) { s = h; matched[k] = 1; break; }
+        }
     }
     if (s < 0 || s >= next_seq || dg_len[s] != n || memcmp(buf, dg_ptr[s], n) != 0) s = -1;
-    if (nrcv < MAXD) rcv_seq[nrcv++] = s;
+    if (nrcv[w] < MAXD) rcv_seq[w][nrcv[w]++] = s;
   }
+}
+static void drain(void) { drain1(0, R); drain1(1, X2); }
+
+static int same_addr(const struct sockaddr* a, const struct sockaddr_storage* b0) {
+  const struct sockaddr* b = (const struct sockaddr*) b0;
+  if (a->sa_family != b->sa_family) return 0;
+  if (a->sa_family == AF_INET) {
+    const struct sockaddr_in *x = (const void*) a, *y = (const void*) b;
+    return x->sin_port == y->sin_port && x->sin_addr.s_addr == y->sin_addr.s_addr;
+  } else if (a->sa_family == AF_INET6) {
+    const struct sockaddr_in6 *x = (const void*) a, *y = (const void*) b;
+    return x->sin6_port == y->sin6_port && memcmp(&x->sin6_addr, &y->sin6_addr, 16) == 0;
+  }
+  return 0;
+}
+/* the msg_name libuv passed: 0 NULL, 1 / 2 the plain sockets, 9 anything else */
+static int name_of(const struct msghdr* h) {
+  if (h->msg_name == NULL) return 0;
+  if (same_addr(h->msg_name, &Raddr)) return 1;
+  if (same_addr(h->msg_name, &Xaddr)) return 2;
+  return 9;
 }
 
 /* plans */
@@ -132,11 +180,11 @@ ssize_t __wrap_sendmsg(int fd, const struct msghdr* h, int flags) {
   if (fd != hfd || hfd < 0 || quiet) return __real_sendmsg(fd, h, flags);
   seq = h->msg_iovlen > 0 ? seq_of_ptr(h->msg_iov[0].iov_base) : -1;
   p = next_plan(splan, nsplan, &isplan);
-  if (p[0] == 'e') { errno = atoi(p + 1); out("m%d=E%d ", seq, errno); return -1; }
+  if (p[0] == 'e') { errno = atoi(p + 1); out("m%d@%d=E%d ", seq, name_of(h), errno); return -1; }
   r = __real_sendmsg(fd, h, flags);
-  if (r < 0) { int e = errno; out("m%d=E%d ", seq, e); errno = e; return -1; }
-  if (nhanded < MAXD) handed_log[nhanded++] = seq;
-  out("m%d=%zd ", seq, r);
+  if (r < 0) { int e = errno; out("m%d@%d=E%d ", seq, name_of(h), e); errno = e; return -1; }
+  if (nhanded < MAXD) { handed_to[nhanded] = name_of(h) ? name_of(h) : cur_peer; handed_log[nhanded++] = seq; }
+  out("m%d@%d=%zd ", seq, name_of(h), r);
   return r;
 }
 
@@ -144,17 +192,21 @@ int __wrap_sendmmsg(int fd, struct mmsghdr* v, unsigned int vlen, int flags) {
   const char* p; unsigned k, n = vlen; int r;
   if (fd != hfd || hfd < 0 || quiet) return __real_sendmmsg(fd, v, vlen, flags);
   p = next_plan(splan, nsplan, &isplan);
-  out_room(vlen * 8);
+  out_room(vlen * 12);
   out("M");
   for (k = 0; k < vlen; k++)
-    out("%s%d", k ? "." : "", v[k].msg_hdr.msg_iovlen > 0 ? seq_of_ptr(v[k].msg_hdr.msg_iov[0].iov_base) : -1);
+    out("%s%d@%d", k ? "." : "", v[k].msg_hdr.msg_iovlen > 0 ? seq_of_ptr(v[k].msg_hdr.msg_iov[0].iov_base) : -1,
+        name_of(&v[k].msg_hdr));
   if (p[0] == 'e') { errno = atoi(p + 1); out("=E%d ", errno); return -1; }
   if (p[0] == 't') { n = (unsigned) atoi(p + 1); if (n > vlen) n = vlen; }
   if (n == 0) { out("=0 "); return 0; }
   r = __real_sendmmsg(fd, v, n, flags);
   if (r < 0) { int e = errno; out("=E%d ", e); errno = e; return -1; }
   for (k = 0; k < (unsigned) r; k++)
-    if (nhanded < MAXD) handed_log[nhanded++] = seq_of_ptr(v[k].msg_hdr.msg_iov[0].iov_base);
+    if (nhanded < MAXD) {
+      handed_to[nhanded] = name_of(&v[k].msg_hdr) ? name_of(&v[k].msg_hdr) : cur_peer;
+      handed_log[nhanded++] = seq_of_ptr(v[k].msg_hdr.msg_iov[0].iov_base);
+    }
   out("=%d ", r);
   return r;
 }
@@ -204,6 +256,7 @@ static void run_beh(char** tab, int n, int k) {
 
 static void send_cb(uv_udp_send_t* req, int status) {
   out("c%d,%d ", (int) (intptr_t) req->data, status);
+  put_req(req);
   run_beh(beh, nbeh, ncb++);
 }
 
@@ -216,15 +269,10 @@ static void alloc_cb(uv_handle_t* h, size_t suggested, uv_buf_t* buf) {
   out("a%d,%ld ", cur_b, len);
 }
 
-static int addr_is_R(const struct sockaddr* a) {
-  if (a->sa_family != ((struct sockaddr*) &Raddr)->sa_family) return 0;
-  if (a->sa_family == AF_INET) {
-    const struct sockaddr_in *x = (const void*) a, *y = (const void*) &Raddr;
-    return x->sin_port == y->sin_port && x->sin_addr.s_addr == y->sin_addr.s_addr;
-  } else {
-    const struct sockaddr_in6 *x = (const void*) a, *y = (const void*) &Raddr;
-    return x->sin6_port == y->sin6_port && memcmp(&x->sin6_addr, &y->sin6_addr, 16) == 0;
-  }
+static int inj_src[MAXD];
+static int addr_is_src(const struct sockaddr* a, int msg) {
+  if (msg < 0 || msg >= ninj) return 0;
+  return same_addr(a, inj_src[msg] == 2 ? &Xaddr : &Raddr);
 }
 
 static void recv_cb(uv_udp_t* h, ssize_t nread, const uv_buf_t* buf, const struct sockaddr* addr, unsigned flags) {
@@ -247,7 +295,7 @@ static void recv_cb(uv_udp_t* h, ssize_t nread, const uv_buf_t* buf, const struc
   }
   out("r%d,%s,%zd,", cur_b, part, nread);
   if (msg >= 0) out("%d", msg); else out("-");
-  out(",%u,%s,%d ", flags, addr == NULL ? "-" : (addr_is_R(addr) ? "p" : "x"), ok);
+  out(",%u,%s,%d ", flags, addr == NULL ? "-" : (addr_is_src(addr, msg) ? "p" : "x"), ok);
   if (!(flags & UV_UDP_MMSG_CHUNK) && strcmp(part, "w") == 0) {   /* handed back */
     free(cur_base); cur_base = NULL; cur_len = 0;
   }
@@ -263,6 +311,10 @@ static int parse_list(char* s, long* v, int max) {
   return n;
 }
 
+static struct sockaddr* dest(long a) {
+  return a == 1 ? (struct sockaddr*) &Raddr : a == 2 ? (struct sockaddr*) &Xaddr : NULL;
+}
+
 static void do_ops(char* ops, int in_cb) {
   char* save = NULL; char* tok;
   for (tok = strtok_r(ops, " \n", &save); tok; tok = strtok_r(NULL, " \n", &save)) {
@@ -273,13 +325,14 @@ static void do_ops(char* ops, int in_cb) {
       uv_buf_t b[8]; unsigned nb; int seq, id; uv_udp_send_t* req;
       n = parse_list(tok + 1, v, 2); if (n != 2) break;
       seq = new_dgram((int) v[0]); id = next_id++;
-      req = calloc(1, sizeof *req); req->data = (void*) (intptr_t) id;
-      if (nreqs < MAXD) reqs[nreqs++] = req;
+      req = get_req(); req->data = (void*) (intptr_t) id;
       nb = split(seq, b);
+      out("A%d,1,%ld ", seq, v[1]);
       {
         /* the S token goes in front of the system calls the call makes */
         size_t mark = olen; char tmp[96]; int tn; long len0 = v[0];
-        r = uv_udp_send(req, &H, b, nb, v[1] ? (struct sockaddr*) &Raddr : NULL, send_cb);
+        r = uv_udp_send(req, &H, b, nb, dest(v[1]), send_cb);
+        if (r != 0) put_req(req);
         tn = snprintf(tmp, sizeof tmp, "S%d,%d,%ld=%d ", id, seq, len0, r);
         out_room((size_t) tn);
         if (!quiet) memmove(obuf + mark + tn, obuf + mark, olen - mark);
@@ -292,20 +345,22 @@ static void do_ops(char* ops, int in_cb) {
       n = parse_list(tok + 1, v, 2); if (n != 2) break;
       seq = new_dgram((int) v[0]);
       nb = split(seq, b);
-      r = uv_udp_try_send(&H, b, nb, v[1] ? (struct sockaddr*) &Raddr : NULL);
+      out("A%d,1,%ld ", seq, v[1]);
+      r = uv_udp_try_send(&H, b, nb, dest(v[1]));
       out("T%d,%ld=%d ", seq, v[0], r);
       break;
     }
     case 'u': {
       int cnt, k, seq0 = next_seq; uv_buf_t (*bb)[8]; uv_buf_t** bufs; unsigned* nbufs; struct sockaddr** addrs;
-      n = parse_list(tok + 1, v, MAXP); if (n < 1) break;
-      cnt = n - 1;
+      n = parse_list(tok + 1, v, MAXP); if (n < 2) break;
+      cnt = n - 2;
+      out("A%d,%d,%ld ", seq0, cnt, v[1]);
       bb = calloc(cnt + 1, sizeof *bb); bufs = calloc(cnt + 1, sizeof *bufs);
       nbufs = calloc(cnt + 1, sizeof *nbufs); addrs = calloc(cnt + 1, sizeof *addrs);
       for (k = 0; k < cnt; k++) {
-        int seq = new_dgram((int) v[k + 1]);
+        int seq = new_dgram((int) v[k + 2]);
         nbufs[k] = split(seq, bb[k]); bufs[k] = bb[k];
-        addrs[k] = conn ? NULL : (struct sockaddr*) &Raddr;
+        addrs[k] = dest(v[1] == 3 ? 1 + seq % 2 : v[1]);
       }
       r = uv_udp_try_send2(&H, (unsigned) cnt, bufs, nbufs, addrs, (unsigned) v[0]);
       out("U%d,%d=%d ", seq0, cnt, r);
@@ -315,6 +370,17 @@ static void do_ops(char* ops, int in_cb) {
     case 'g':
       out("g%zu,%zu,%d ", uv_udp_get_send_queue_size(&H), uv_udp_get_send_queue_count(&H),
           uv_is_active((uv_handle_t*) &H) ? 1 : 0);
+      break;
+    case 'c':
+      n = atoi(tok + 1);
+      r = uv_udp_connect(&H, dest(n));
+      if (r == 0) cur_peer = n;
+      out("C%d=%d ", n, r);
+      break;
+    case 'd':
+      r = uv_udp_connect(&H, NULL);
+      if (r == 0) cur_peer = 0;
+      out("D=%d ", r);
       break;
     case 'p': out("P%d ", uv_udp_recv_start(&H, alloc_cb, recv_cb)); break;
     case 'q': out("Q%d ", uv_udp_recv_stop(&H)); break;
@@ -337,7 +403,10 @@ static void do_ops(char* ops, int in_cb) {
         for (k = 0; k < n && ninj < MAXD; k++) {
           int len = (int) v[k]; if (len > BIG - 8) len = BIG - 8;
           for (i = 0; i < len; i++) pl[i] = inj_byte(ninj, i);
-          if (sendto(R, pl, (size_t) len, 0, (struct sockaddr*) &Haddr, alen) == len) inj_len[ninj++] = len;
+          /* a connected handle only hears its peer */
+          if (sendto(cur_peer == 2 ? X2 : R, pl, (size_t) len, 0, (struct sockaddr*) &Haddr, alen) == len) {
+            inj_src[ninj] = cur_peer == 2 ? 2 : 1; inj_len[ninj++] = len;
+          }
           else { fprintf(stderr, "inject failed: %s\n", strerror(errno)); exit(2); }
         }
       }
@@ -366,6 +435,14 @@ static void loopback(struct sockaddr_storage* a, int port) {
          x->sin6_addr = in6addr_loopback; alen = sizeof *x; }
 }
 
+/* safety net only: a case that does not come back (e.g. libuv retrying forever) */
+static void on_alarm(int sig) {
+  (void) sig;
+  if (obuf) { ssize_t w = write(1, obuf, olen); (void) w; }
+  { ssize_t w = write(1, " HANG", 5); (void) w; }
+  _exit(3);
+}
+
 static void die(const char* what, int r) { fprintf(stderr, "c10 harness: %s: %d %s\n", what, r, strerror(errno)); exit(2); }
 
 int main(void) {
@@ -375,13 +452,16 @@ int main(void) {
     socklen_t sl;
     for (;;) { char* e = strchr(s, ';'); if (e) *e = 0; if (nf < 7) f[nf++] = s; if (!e) break; s = e + 1; }
     if (nf < 7) { printf("BADCASE\n"); continue; }
-    if (split_sp(f[0], cfgt, 4) != 3) { printf("BADCASE\n"); continue; }
-    fam = atoi(cfgt[0]); conn = atoi(cfgt[1]); mm = atoi(cfgt[2]);
+    k = split_sp(f[0], cfgt, 4);
+    if (k != 3 && k != 4) { printf("BADCASE\n"); continue; }
+    fam = atoi(cfgt[0]); conn = atoi(cfgt[1]); mm = atoi(cfgt[2]); pat = k == 4 ? atoi(cfgt[3]) : 0;
+    signal(SIGALRM, on_alarm); alarm(60);
     nallocs = split_sp(f[1], at, MAXP); for (k = 0; k < nallocs; k++) allocs[k] = atol(at[k]);
     nsplan = split_sp(f[2], splan, MAXP); nrplan = split_sp(f[3], rplan, MAXP);
     nbeh = split_bar(f[5], beh, MAXB); nrbeh = split_bar(f[6], rbeh, MAXB);
     isplan = irplan = ialloc = 0; ncb = nrcb = 0; next_seq = next_id = 0; nhanded = 0; nreqs = 0;
-    ninj = rx_count = 0; nrcv = 0; cur_b = -1; next_b = 0; cur_base = NULL; cur_len = 0;
+    nfree = 0; memset(matched, 0, sizeof matched); cur_peer = 0;
+    ninj = rx_count = 0; nrcv[0] = nrcv[1] = 0; cur_b = -1; next_b = 0; cur_base = NULL; cur_len = 0;
     closing_called = 0; quiet = 0; olen = 0;
 
     R = socket(fam == 4 ? AF_INET : AF_INET6, SOCK_DGRAM, 0); if (R < 0) die("socket", R);
@@ -389,6 +469,11 @@ int main(void) {
     loopback(&Raddr, 0);
     if (bind(R, (struct sockaddr*) &Raddr, alen)) die("bind", -1);
     sl = sizeof Raddr; getsockname(R, (struct sockaddr*) &Raddr, &sl);
+    X2 = socket(fam == 4 ? AF_INET : AF_INET6, SOCK_DGRAM, 0); if (X2 < 0) die("socket", X2);
+    setsockopt(X2, SOL_SOCKET, SO_RCVBUF, &big, sizeof big);
+    loopback(&Xaddr, 0);
+    if (bind(X2, (struct sockaddr*) &Xaddr, alen)) die("bind", -1);
+    sl = sizeof Xaddr; getsockname(X2, (struct sockaddr*) &Xaddr, &sl);
 
     if ((r = uv_loop_init(&loop))) die("uv_loop_init", r);
     uv_prepare_init(&loop, &keep); uv_prepare_start(&keep, prep_cb);
@@ -399,12 +484,16 @@ int main(void) {
     uv_fileno((uv_handle_t*) &H, &hfd);
     setsockopt(hfd, SOL_SOCKET, SO_RCVBUF, &big, sizeof big);
     if (conn && (r = uv_udp_connect(&H, (struct sockaddr*) &Raddr))) die("uv_udp_connect", r);
+    if (conn) cur_peer = 1;
 
     do_ops(f[4], 0);
     drain();
-    out_room((size_t) nrcv * 8);
-    out("W");
-    for (k = 0; k < nrcv; k++) { if (rcv_seq[k] >= 0) out("%s%d", k ? "." : "", rcv_seq[k]); else out("%s?", k ? "." : ""); }
+    out_room((size_t) (nrcv[0] + nrcv[1]) * 8);
+    for (r = 0; r < 2; r++) {
+      out(r ? " Y" : "W");
+      for (k = 0; k < nrcv[r]; k++) { if (rcv_seq[r][k] >= 0) out("%s%d", k ? "." : "", rcv_seq[r][k]); else out("%s?", k ? "." : ""); }
+    }
+    alarm(0);
     fwrite(obuf, 1, olen, stdout); putchar('\n'); fflush(stdout);
 
     /* tear down */
@@ -413,7 +502,7 @@ int main(void) {
     uv_close((uv_handle_t*) &keep, NULL);
     for (k = 0; k < 100 && uv_run(&loop, UV_RUN_NOWAIT); k++) ;
     if (uv_loop_close(&loop)) { fprintf(stderr, "c10 harness: loop busy at the end of a case\n"); exit(2); }
-    hfd = -1; close(R); R = -1;
+    hfd = -1; close(R); R = -1; close(X2); X2 = -1;
     if (cur_base) { free(cur_base); cur_base = NULL; }
     for (k = 0; k < next_seq; k++) { free(dg_ptr[k]); dg_ptr[k] = NULL; }
     for (k = 0; k < nreqs; k++) free(reqs[k]);
